@@ -136,27 +136,39 @@ def main(tier):
             for _ in range(1 if tier == "quick" else 6):
                 c = S.build(rng, k, mutate=mut, ht=(1 if not k.startswith("p2tr") else 0))
                 jobs.append((k, mut, c))
+    # long script codes (a 2-of-3 of uncompressed keys is 201 bytes; it needs -WITNESS_PUBKEYTYPE, given by NAME on the command line), multi-input
+    # transactions (for taproot inputs a known finding, F31: an error, never an abnormal exit), a negative amount prefix
+    extra_jobs = []
+    for _ in range(1 if tier == "quick" else 4):
+        c = S.build(rng, "p2wsh", enc="uncompressed", ht=1); extra_jobs.append(("p2wsh-uncompressed", None, c, ["-f-WITNESS_PUBKEYTYPE"], c["valid"]))
+        c = S.build(rng, "p2sh-p2wsh", enc="uncompressed", ht=1); extra_jobs.append(("p2sh-p2wsh-uncompressed", None, c, ["-f-WITNESS_PUBKEYTYPE"], c["valid"]))
+        c = S.build(rng, "p2wsh", enc="uncompressed", ht=1); extra_jobs.append(("p2wsh-uncompressed/default-flags", None, c, [], False))
+        c = S.build(rng, "multisig", enc="nonnulldummy", ht=1); extra_jobs.append(("multisig-nonnulldummy", None, c, ["-f-NULLDUMMY"], c["valid"]))
+        for kk in ("p2tr-key", "p2tr-script", "p2wpkh", "p2pkh"):
+            c = S.build(rng, kk, nin=2, pos=1, ht=(0 if kk.startswith("p2tr") else 1)); extra_jobs.append((kk + "/2-inputs", None, c, [], None if kk.startswith("p2tr") else c["valid"]))
+        c = S.build(rng, "p2wpkh", ht=1); c = dict(c, spend="-0.1:" + c["spend"]); extra_jobs.append(("p2wpkh/negative-amount", None, c, [], None))      # (the amount of the referenced output overrides the prefix: only "no abnormal exit" is required)
     variants = [([], {}), (["--debug=sighash"], {}), (["--debug=sighash,signing,segwit,taproot"], {}), ([], {"DEBUG_SIGHASH": "1", "DEBUG_SIGNING": "1"}), (["-q"], {})]
+    jobs = [(k, mut, c, [], c["valid"]) for k, mut, c in jobs] + extra_jobs
     def run_tx(j):
-        k, mut, c = j
-        base = ["--tx=" + c["spend"], "--txin=" + c["fund"]]
+        k, mut, c, fopt, want = j
+        base = fopt + ["--tx=" + c["spend"], "--txin=" + c["fund"]]
         return [cli.run(os.path.join(bdir, "btcdeb"), o + base, stdin_tty=True, env=e) for o, e in variants]
     with concurrent.futures.ThreadPoolExecutor(vlib.NCPU) as ex:
         txres = list(ex.map(run_tx, jobs))
     st2 = chk.streams.setdefault("btcdeb-noninteractive-tx", {"cases": 0, "diffs": 0, "known": 0})
-    for (k, mut, c), rs in zip(jobs, txres):
+    for (k, mut, c, fopt, want), rs in zip(jobs, txres):
         ref = rs[0]
         for (o, e), r in zip(variants, rs):
             st2["cases"] += 1; chk.evaluations += 1
             chk.nontrivial.add(hashlib.md5(repr((k, mut, c["spend"], o, sorted(e.items()))).encode()).digest())
             bad = None
             if r["sig"] or r["rc"] not in (0, 1): bad = "abnormal termination (signal %s, rc %s)" % (r["sig"], r["rc"])
-            elif c["valid"] and (r["rc"] != 0 or r["stdout"].strip() != b"01"): bad = "a valid %s spend must end with exit 0 and the final stack 01 on stdout" % k
-            elif not c["valid"] and r["rc"] != 1: bad = "an invalid %s spend (%s) must end with exit 1" % (k, mut)
+            elif want is True and (r["rc"] != 0 or r["stdout"].strip() != b"01"): bad = "a valid %s spend must end with exit 0 and the final stack 01 on stdout (options %s)" % (k, fopt)
+            elif want is False and r["rc"] != 1: bad = "an invalid %s spend (%s) must end with exit 1" % (k, mut)
             elif (r["rc"], r["stdout"]) != (ref["rc"], ref["stdout"]): bad = "exit status / stdout change with the debug options %s %s" % (o, e)
             if bad:
                 st2["diffs"] += 1
                 if st2["diffs"] <= 4:
-                    chk.violation("noninteractive-mismatch", bad, {"stream": "btcdeb-noninteractive-tx", "case": ["cli-run"], "binary": "btcdeb", "mode": "argv", "argv": o + ["--tx=" + c["spend"], "--txin=" + c["fund"]],
+                    chk.violation("noninteractive-mismatch", bad, {"stream": "btcdeb-noninteractive-tx", "case": ["cli-run"], "binary": "btcdeb", "mode": "argv", "argv": o + fopt + ["--tx=" + c["spend"], "--txin=" + c["fund"]],
                                   "stdin": None, "stdin_tty": True, "env": e, "rc": r["rc"], "sig": r["sig"], "stdout": r["stdout"].decode("latin1")[:1500], "stderr": r["stderr"].decode("latin1")[-1500:]})
     return chk.finish(RULE)
